@@ -13,6 +13,10 @@ Monitors (all at the public API of the real classes):
   * gradient() on 4 direction x 4 linearisation-point representations: value vs J^T d with J (a) analytic from the
     reference, (b) central differences of the *real* forward in parameter space; wrapping; refusal table;
   * model(distribution): renamed copy, everything else untouched, original untouched;
+  * operator representation: Jacobians of Model(jacobian=) and of the PDE (jacobian_wrt_parameter), LinearModel matrices and
+    the operators behind callable pairs are supplied dense, as scipy csr/csc/coo/dia matrices, csr_array and matrix-free
+    (LinearOperator): every forward / gradient / adjoint value must be a numeric vector of the documented length, equal to
+    the reference whatever the representation; LinearModel.adjoint is driven on ndarray par/fun, CUQIarray par/fun, Samples;
   * history: sequences of forward / gradient calls on one model object whose input (and direction) is one buffer
     updated in place between the calls (ndarray, CUQIarray view on it, fresh copies, function-value buffer): every
     result must belong to the current values (memoisation keyed on identity or stale values), inputs never modified.
@@ -39,13 +43,13 @@ REQUIRED_COUNTERS = {
               "gradient_vs_fd_of_real_forward": 2200, "geometry_gradient_input_checked": 1300,
               "gradient_refusal_observed": 6500, "dist_rename_checked": 20, "dist_forward_checked": 80,
               "forward_history_checked": 9000, "gradient_history_checked": 5500, "input_unchanged_checked": 15000,
-              "reuse_after_error_checked": 5000},
+              "reuse_after_error_checked": 5000, "operator_rep_checked": 25000, "adjoint_value_checked": 5000},
     "thorough": {"forward_value_checked": 150000, "forward_wrap_checked": 160000, "callable_input_checked": 120000,
                  "samples_columns_checked": 45000, "gradient_value_checked": 30000, "fd_jacobian_columns": 50000,
                  "gradient_vs_fd_of_real_forward": 30000, "geometry_gradient_input_checked": 18000,
                  "gradient_refusal_observed": 150000, "dist_rename_checked": 120, "dist_forward_checked": 500,
                  "forward_history_checked": 110000, "gradient_history_checked": 50000, "input_unchanged_checked": 190000,
-                 "reuse_after_error_checked": 35000},
+                 "reuse_after_error_checked": 35000, "operator_rep_checked": 150000, "adjoint_value_checked": 30000},
 }
 BUDGET_S = {"quick": 200.0, "thorough": 1500.0}
 
@@ -767,6 +771,7 @@ def run_case(case, ctx):
     pts = _points(ref, rs, 3 if thorough else 2)
     expect_fwd_refusal = not ref.ran.has_fun2par
     n_rep_ok = 0
+    oprep_nd = case.get("oprep", "dense") != "dense"
     for p in pts:
         f = np.asarray(ref.dom.par2fun(p), dtype=float)
         y_ref = None if expect_fwd_refusal else ref.forward(p)
@@ -1048,7 +1053,7 @@ def _adjoint_monitor(case, ctx, b, rs, rtol):
     numeric vector of domain par_dim entries, equal across representations, wrapped like the input."""
     import cuqi
     model, ref = b.model, b.ref
-    if b.lin_op is None or not isinstance(model, cuqi.model.LinearModel):
+    if getattr(b, "lin_op", None) is None or not isinstance(model, cuqi.model.LinearModel):
         return
     CUQIarray, Samples = cuqi.array.CUQIarray, cuqi.samples.Samples
     dom_g, ran_g = b.dom_obj, b.ran_obj
